@@ -240,8 +240,8 @@ def apply_elfi(m, op):
         R = elfi_create(m, op['name'], op['node'])
         try:
             m[op['target']].become(R)
-        except ValueError:
-            pass          # refused; what the model looks like now is judged like after every other step
+        except Exception:
+            pass          # refused (the statement does not prescribe the exception type); what the model looks like now is judged like after every other step
     elif op['op'] == 'remove':
         m.remove_node(op['target'])
     elif op['op'] == 'flags':
